@@ -1,6 +1,6 @@
 #!/usr/bin/env python3
 """selftest/translator_variants.py [name ...]: the translator channel (bin/extract + bin/rust2lean.py + the theorems of
-Lemmas/SourceReassembly.lean, Lemmas/SourceProtocol.lean, Lemmas/SourceReceivers.lean and Lemmas/SourceDecoders.lean) tried on scratch copies of /repo/src with small edits of the
+Lemmas/SourceReassembly.lean, Lemmas/SourceProtocol.lean, Lemmas/SourceReceivers.lean, Lemmas/SourceDecoders.lean and Lemmas/SourceEncoders.lean) tried on scratch copies of /repo/src with small edits of the
 translated functions: behaviour-preserving rewrites (R*: every theorem must still check, or the function must drop out of the
 translatable subset) and property-breaking edits (B*: the theorem named must break, unless the function drops out).
 Nothing is written to /repo or to the Lean project (bin/srccheck compiles into a private directory). Prints one line per
@@ -18,6 +18,7 @@ BU = open("/repo/src/event/button.rs").read()
 BC = open("/repo/src/event/bcm.rs").read()
 RL = open("/repo/src/event/relay.rs").read()
 PG = open("/repo/src/event/programmer.rs").read()
+GE = open("/repo/src/event/general.rs").read()
 EV_SIZE5 = """        if packet.data.len() != 5 {
             return Err(ConvertPacketError::WrongSize);
         }
@@ -231,6 +232,16 @@ VARIANTS = {
     "ev-B7-bcm-min-length": ("event/bcm.rs", rep(BC, "if packet.data.len() < 7 {", "if packet.data.len() < 5 {"), "src_decode_bcmChange"),
     "ev-B8-relay-value-offset": ("event/relay.rs", rep(RL, "RelayValue::deserialize(&packet.data[5..])?", "RelayValue::deserialize(&packet.data[4..])?"), "src_decode_relaySet"),
     "ev-B9-fields-swapped": ("event/programmer.rs", rep(PG, "let new_address = u16::from_be_bytes(packet.data[4..=5].try_into().unwrap());", "let new_address = u16::from_be_bytes(packet.data[2..=3].try_into().unwrap());"), "src_decode_setDeviceAddress"),
+    "ev-R6-data-le-5": ("event/general.rs", rep(GE, "if packet.data.len() < 6 {", "if packet.data.len() <= 5 {"), None),
+    "ev-B10-data-no-min-length": ("event/general.rs", rep(GE, "        if packet.data.len() < 6 {\n            return Err(ConvertPacketError::WrongSize);\n        }\n\n", ""), "src_decode_data"),   # the defect D3 of the pinned tree
+    "ev-B11-data-length-unchecked": ("event/general.rs", rep(GE, "        if packet.data.len() != data_len as usize + 6 {\n            return Err(ConvertPacketError::WrongSize);\n        }\n\n", ""), "src_decode_data"),
+    "ev-B12-data-copy-from-5": ("event/general.rs", rep(GE, "data[i] = packet.data[i + 6];", "data[i] = packet.data[i + 5];"), "src_decode_data"),
+    # ---- event encoders
+    "en-R1-vec-new": ("event/button.rs", rep(BU, "        let mut data = vec![];\n\n        for byte in u16::to_be_bytes(BUTTON_PRESSED_EVENT_CODE)", "        let mut data = Vec::new();\n\n        for byte in u16::to_be_bytes(BUTTON_PRESSED_EVENT_CODE)"), None),
+    "en-B1-error-flag-set": ("event/button.rs", rep(BU, "            is_error: false,\n            device_address: self.receiver_address,", "            is_error: true,\n            device_address: self.receiver_address,"), "src_encode_buttonPressed"),
+    "en-B2-address-from-other-field": ("event/button.rs", rep(BU, "            device_address: self.receiver_address,", "            device_address: self.button_address,"), "src_encode_buttonPressed"),
+    "en-B3-index-before-address": ("event/button.rs", rep(BU, "        for byte in u16::to_be_bytes(self.button_address).iter() {\n            data.push(*byte);\n        }\n\n        data.push(self.index);", "        data.push(self.index);\n\n        for byte in u16::to_be_bytes(self.button_address).iter() {\n            data.push(*byte);\n        }"), "src_encode_buttonPressed"),
+    "en-B4-wrong-code-written": ("event/button.rs", rep(BU, "u16::to_be_bytes(BUTTON_PRESSED_EVENT_CODE)", "u16::to_be_bytes(BUTTON_RELEASED_EVENT_CODE)"), "src_encode_buttonPressed"),
     # ---- interface/*.rs (frame-level tail of try_get_packet), harmless
     "rx-R1-add-as-match": ("interface/usart.rs", rep(US, ADD_IFLET, ADD_MATCH), None),
     "rx-R2-zero-flipped": ("interface/usart.rs", rep(US, "if packet_builder.frames_left() == 0 {", "if 0 == packet_builder.frames_left() {"), None),
